@@ -84,7 +84,9 @@ def netRelabelled (perm dirS adjS wS : String) : String :=
     showNats (Net.coreness n a dir),
     mvec n fun i => showRat (Net.nsiIndeg n a w i), mvec n fun i => showRat (Net.nsiOutdeg n a w i),
     mvec n fun i => showRat (Net.nsiDegree dir n a w i),
-    mvec n fun i => showRat (Net.nsiLocalClustering n a w i)] "|"
+    mvec n fun i => showRat (Net.nsiLocalClustering n a w i),
+    -- round 4
+    showOptRat (Net.assortativity dir n a)] "|"
 
 /-- `Pyunicorn.Cross` (C11) on the renumbered network with the renumbered node lists -/
 def crossRelabelled (perm dirS adjS wS l1 l2 dS : String) : String :=
